@@ -584,6 +584,7 @@ func runC19(c *Ctx) {
 	saved := untrustedStructPkgs
 	untrustedStructPkgs = protobomMessagePkgs
 	e := newNilEngine(c)
+	e.errLinked = true
 	for _, n := range []string{storeFn, retrieveFn} {
 		e.entry[n] = true
 	}
